@@ -207,6 +207,24 @@ PROPS["C20"] = {
     "technique": "Lean 4 proof over a stage-machine model whose stage order and file filter are regenerated from cmd/ogen/main.go by a go/ast translator; differential runs against the built binary with recursive directory snapshots",
 }
 
+PROPS["C02"] = {
+    "lean_modules": ["Ogen.Props.C02"],
+    "suites": ["c02"],
+    "facts": ["naming"],
+    "timeout": 2400,
+    "trusted_base": [
+        KERNEL, HARNESS, GENCHECK,
+        "the fact translator harness/cmd/extract: Ogen/Generated/Facts_naming.lean (the rule table of internal/naming/rules.go as code-point lists) regenerated on every run; facts_rules_ok is stated over it",
+        "statements in lean/Ogen/Props/C02.lean; models NameGen (gen/names.go: generate/clean/isAllowed/checkPart/namedChar, R-prefix, token.IsIdentifier restricted to what can occur) and TStore (gen/tstorage.go: saveType/saveRef/saveWType/merge over a name table) hand-written; tie = the hooks gen.VerifPascal/VerifPascalSpecial/VerifCleanSpecial/VerifTStorageRun run on every Unicode scalar value as a one-rune name (quick: U+0000-U+2FFF and every rune with a non-identity case mapping), on random hostile names and on random operation sequences, compared line by line with the Lean driver",
+        "unicode.ToLower/ToUpper are modelled on ASCII plus U+0130 and U+212A (the only non-ASCII code points whose lower-case form is an ASCII letter) — this is exactly what the exhaustive one-rune sweep checks",
+        "NOT proved: that the templates as a whole emit a well-typed package. That part of the property is decided by the compile matrix (regenerate with /repo's generator, go build ./..., go vet type check incl. test files) over corpus specs, a pairwise covering array of the 11 features x ConvenientErrors, hostile-name documents, hostile single-node mutations of corpus specs, response matrices, random schema documents and the collision stream (position x identifier declared by the generated package itself). The Go compiler is the oracle there; it is a search, not a theorem.",
+    ],
+    "assumptions": ["IgnoreNotImplemented=all and InferSchemaType=true in the compile matrix (as the repository's own TestGenerate does)", "go vet -asmdecl is used as a type check of all files including *_test.go (no analyzer that could object to generated code is enabled)"],
+    "level_text": "partial: name_is_identifier, name_not_keyword, name_fails_iff_nothing_nameable, clean_is_safe for every input string with the regenerated rule table; no_silent_overwrite, overwrite_only_by_generic, merge_same_base_only for every successful run of type-store operations, with the witness no_silent_overwrite_full_is_false for the one overwrite the code does not refuse. 'Every accepted document compiles in every feature configuration' is not a theorem: the compile matrix searches for a failing document (known classes K12 identifier collisions, K13 control characters in names; three defects fixed)",
+    "level_note": "trusted: Lean kernel, statements, fact translator, hooks + correspondence, the Go toolchain as compile oracle. Known findings K12, K13.",
+    "technique": "Lean 4 proof over hand-written models of identifier synthesis and the type store (rule table regenerated from source; models tied to the code through verif hooks on exhaustive and random inputs) plus a regenerate-and-compile matrix as failing-input search",
+}
+
 PROPS["C08"] = {
     "lean_modules": ["Ogen.Props.C08"],
     "suites": ["c08"],
@@ -250,5 +268,5 @@ for _p in ["C01", "C02", "C03", "C04", "C05", "C06", "C07", "C08", "C09", "C11",
     if _p not in PROPS:
         NOT_CLAIMED[_p] = "not claimed yet: machinery under construction (theorems exist in lean/Ogen, the tie to /repo is not finished)"
 
-HOOK_COMMITS = ["8a1dd2e74a0b79a9e824b1b1ebee79bbac4dec2d"]
+HOOK_COMMITS = ["8a1dd2e74a0b79a9e824b1b1ebee79bbac4dec2d", "0932b764a1d9512d33b0edbdb0df4d17b735f038", "ef3ea3473b26c332debe40e97892594d565639bc"]
 
